@@ -1,5 +1,6 @@
 import SFV.Model.Sh
 import SFV.Model.FS
+import SFV.Model.FSL
 import SFV.Gen.CmdTemplates
 import SFV.Model.Proto
 open SFV SFV.Proto SFV.Sh
@@ -31,6 +32,38 @@ def showFs (r : Option FS.FS) (p : List String) : String :=
 def splitAtTok (tok : String) (l : List String) : List String × List String :=
   (l.takeWhile (· ≠ tok), (l.dropWhile (· ≠ tok)).drop 1)
 
+/-! `fsl` lines: a file system with links from its entry list `d:<path>`, `f:<path>:<size>:<mode>`, `l:<path>:<target>` (hex, `/`-separated) -/
+def comps (s : String) : List String := (s.splitOn "/").filter (· ≠ "")
+
+def parseEntry (e : String) : Option (List String × FSL.Node) :=
+  match e.splitOn ":" with
+  | ["d", p] => (stringOfHex p).map (fun p => (comps p, .dir))
+  | ["f", p, sz, m] => do
+      let p ← stringOfHex p
+      let n ← sz.toNat?
+      let m ← m.toNat?
+      pure (comps p, .file (List.replicate n 'x') m)
+  | ["l", p, t, n] => do
+      let p ← stringOfHex p
+      let t ← stringOfHex t
+      let n ← n.toNat?
+      pure (comps p, .link (comps t) n)
+  | _ => none
+
+def mkFSL (es : List (List String × FSL.Node)) : FSL.FS := fun q => if q = [] then some .dir else (es.lookup q)
+
+def kindAt (fs : FSL.FS) (p : List String) : String :=
+  match fs p with
+  | some .dir => "d"
+  | some (.file _ m) => s!"f{m}"
+  | some (.link _ _) => "l"
+  | none => "-"
+
+def showLink (r : Option FSL.FS) (p : List String) (base : String) : String :=
+  match r with
+  | none => "error"
+  | some fs => s!"ok {kindAt fs p} {kindAt fs (p ++ [base])}"
+
 def handle : List String → String
   | "render" :: name :: args =>
       match Gen.Cmd.table.lookup name, args.mapM unhexL with
@@ -54,6 +87,30 @@ def handle : List String → String
           let l := FS.localMkdir (path.length - 1) fsys path (par == "1") (eok == "1")
           let r := FS.remoteMkdir fsys path (par == "1") (eok == "1")
           s!"L {showFs l path} R {showFs r path}"
+      | _, _, _ => "bad-op"
+  | "fsl" :: op :: ph :: a1 :: a2 :: "E" :: es =>
+      match stringOfHex ph, stringOfHex a1, es.mapM parseEntry with
+      | some p, some x, some es =>
+          let fs := mkFSL es
+          let path := comps p
+          let dom := es.map (·.1)
+          if op == "symlink" then
+            let t := comps x
+            let base := t.getLast?.getD ""
+            let tl := a2.toNat?.getD 0
+            s!"L {showLink (FSL.localSymlink fs path t tl) path base} R {showLink (FSL.remoteSymlink fs path t tl base) path base}"
+          else if op == "hardlink" then
+            let t := comps x
+            let base := t.getLast?.getD ""
+            s!"L {showLink (FSL.localHardlink fs path t) path base} R {showLink (FSL.remoteHardlink fs path t base) path base}"
+          else if op == "size" then
+            s!"L {FSL.localSize fs dom path} R {FSL.remoteSize fs dom path}"
+          else if op == "chmod" then
+            let mode := x.toNat?.getD 0
+            let follow := a2 == "1"
+            let sh := fun (r : Option FSL.FS) => match r with | none => "error" | some f => s!"ok {kindAt f ((FSL.resolve FSL.FUEL f path).getD path)}"
+            s!"L {sh (FSL.localChmod fs path mode follow)} R {sh (FSL.remoteChmod fs path mode follow)}"
+          else "bad-op"
       | _, _, _ => "bad-op"
   | ["lex", h] =>
       match unhexL h with
